@@ -555,7 +555,13 @@ func MonC04() *Mon {
 // ---- C10 no lost wake-up -----------------------------------------------------------
 
 func MonC10() *Mon {
+	// "has not yet accepted a block" is judged by what the application was handed, not by the library's own flag
+	accepted := func(n *Node) bool { return len(n.Accepted[n.D.BlockIndex]) > 0 }
+	preAcc := map[*Node]bool{}
 	return &Mon{Name: "C10",
+		BeforeCall: func(n *Node, c *Call) {
+			preAcc[n] = n.D.Validators != nil && accepted(n)
+		},
 		TimerReset: func(n *Node, h uint32, v byte, d time.Duration) {
 			if d < 0 {
 				key := "negative-duration"
@@ -567,10 +573,14 @@ func MonC10() *Mon {
 		},
 		AfterCall: func(n *Node, c *Call) {
 			d := n.D
-			if !n.Active() || d.BlockSent() {
+			if !n.Active() || accepted(n) {
 				return
 			}
 			w, t := n.W, n.Timer
+			if d.BlockSent() {
+				w.Fail("C10", fmt.Sprintf("node %d height %d: the library considers the height decided although the application was handed no block", n.ID, d.BlockIndex), "decided-without-block")
+				return
+			}
 			if !t.Set || !t.Pending {
 				w.Fail("C10", fmt.Sprintf("node %d height %d view %d: no timer pending after %s", n.ID, d.BlockIndex, d.ViewNumber, c.Kind), "no-timer")
 				return
@@ -586,7 +596,7 @@ func MonC10() *Mon {
 				}
 				w.Fail("C10", fmt.Sprintf("node %d: timer duration %s is negative", n.ID, t.D), key)
 			}
-			if c.Kind == CTimeout && !c.PreBlockSent && c.H == c.PreHeight && c.V == c.PreView {
+			if c.Kind == CTimeout && !preAcc[n] && c.H == c.PreHeight && c.V == c.PreView {
 				w.Stat("c10_timeout_consumed")
 				if t.Resets == c.PreResets {
 					w.Fail("C10", fmt.Sprintf("node %d height %d view %d: timeout for the current epoch did not re-arm the timer", n.ID, c.H, c.V), "timeout-not-rearmed")
